@@ -43,7 +43,7 @@ theorem tfcMoved_true {s : St} {seen : Key → List Key} {d : Key} {nd : Node}
     (hnd : s.nodes d = some nd) (h : tfcMoved s seen d = true) : nd.kind ≠ .firewall ∧ nd.tfc ≠ seen d := by
   simpa [tfcMoved, hnd] using h
 
-theorem repairDeps_spec {p : Program} (sh : Shape p) {q : Q} {k : Key} (hq : QSpec p q k) {n : Node}
+theorem repairDeps_spec {p : Program} {q : Q} {k : Key} (hq : QSpec p q k) {n : Node}
     (skipOk : Bool) :
     ∀ (deps : List (Key × Val)) (nt : Bool) (cl : List Key) (s : St), Inv p s → s.nodes k = some n →
       (∀ e, e ∈ deps → e ∈ n.deps) →
@@ -72,7 +72,7 @@ theorem repairDeps_spec {p : Program} (sh : Shape p) {q : Q} {k : Key} (hq : QSp
     · -- clean edge, trusted: skipped
       rename_i hskip
       obtain ⟨hcl, _, htr⟩ := hskip
-      obtain ⟨nd, hnd, hvd, hacc, hsol⟩ := inv.clean_trusted sh hk hm hcl htr
+      obtain ⟨nd, hnd, hvd, hacc, hsol⟩ := inv.clean_trusted hk hm hcl htr
       have hd0 : DepOK s n false d o := ⟨nd, hnd, hvd, hsol, fun _ => hacc⟩
       refine (ih nt cl s inv hk hsub').mono ?_
       rintro ⟨b, nt', cl', s1⟩ ⟨i1, f1, t1, k1, hf, ht⟩
